@@ -254,3 +254,35 @@ def is_diagnostic(st):
     d = dump(st.value.func)
     return d in ("print", "warnings.warn", "warn") or d.split(".")[0] in ("logging", "logger", "log", "_logger", "LOGGER", "_LOG") \
         or d.startswith(("self.logger.", "self._logger.", "self.log."))
+
+
+def normalise_nested(fnode, inner_names, outer_names, inner_fn="recurse"):
+    """copy of a function whose single nested function is renamed to `inner_fn` with its parameters renamed (positionally) to inner_names, and whose own parameters are
+    renamed to outer_names: text comparisons of recursive generators then do not depend on the names the author chose"""
+    import copy
+    fnode = copy.deepcopy(fnode)
+    inner = [x for x in fnode.body if isinstance(x, ast.FunctionDef)]
+    if len(inner) != 1 or len(inner[0].args.args) != len(inner_names) or len(fnode.args.args) != len(outer_names):
+        return fnode
+    old_name = inner[0].name
+    ren = {a.arg: nm for a, nm in zip(inner[0].args.args, inner_names)}
+    for x in ast.walk(inner[0]):
+        if isinstance(x, ast.Name) and x.id in ren:
+            x.id = ren[x.id]
+        elif isinstance(x, ast.Name) and x.id == old_name:
+            x.id = inner_fn
+        elif isinstance(x, ast.arg) and x.arg in ren:
+            x.arg = ren[x.arg]
+    inner[0].name = inner_fn
+    oren = {a.arg: nm for a, nm in zip(fnode.args.args, outer_names)}
+    for st in fnode.body:
+        if st is inner[0]:
+            continue
+        for x in ast.walk(st):
+            if isinstance(x, ast.Name) and x.id in oren:
+                x.id = oren[x.id]
+            elif isinstance(x, ast.Name) and x.id == old_name:
+                x.id = inner_fn
+    for a, nm in zip(fnode.args.args, outer_names):
+        a.arg = nm
+    return fnode
